@@ -6,6 +6,7 @@ import (
 	"go/constant"
 	"go/token"
 	"go/types"
+	"regexp"
 	"sort"
 	"strings"
 )
@@ -386,14 +387,18 @@ func c18R3(p *Prog, r *Report) {
 	const rule = "C18-R3"
 	r.Rule(rule, "numeric invariants guard their consumers (exact region analysis per option: the integers are partitioned by the constants the option is compared with, one representative per region is simulated through the validating function's CFG, helpers taking the option's address are entered): a nil-error return leaves relay/receive batch sizes in 1..1024, the send channel capacity >= 64, the initial payload wait timeout and buffer size positive; every relay / UDP client constructor is reached only with MTU >= 1280; PSK length is checked on the success edge before any cipher configuration is derived; the NAT timeout is accepted only past the comparison with the server's minimum or as the default, the minimum flows from the session server's Info(), which is the replay window constant, which covers the accepted timestamp window, and the default is not below it")
 	tbl := []c18Range{
-		{"service", "UDPPerfConfig", "CheckAndApplyDefaults", "c.RelayBatchSize", 1, 1024, "relay batch size in 1..1024 (0 = default)"},
-		{"service", "UDPPerfConfig", "CheckAndApplyDefaults", "c.ServerRecvBatchSize", 1, 1024, "server receive batch size in 1..1024 (0 = default)"},
-		{"service", "UDPPerfConfig", "CheckAndApplyDefaults", "c.SendChannelCapacity", 64, regionPosInf, "send channel capacity >= 64 (0 = default)"},
+		{"service", "UDPPerfConfig", "CheckAndApplyDefaults", "recv.RelayBatchSize", 1, 1024, "relay batch size in 1..1024 (0 = default)"},
+		{"service", "UDPPerfConfig", "CheckAndApplyDefaults", "recv.ServerRecvBatchSize", 1, 1024, "server receive batch size in 1..1024 (0 = default)"},
+		{"service", "UDPPerfConfig", "CheckAndApplyDefaults", "recv.SendChannelCapacity", 64, regionPosInf, "send channel capacity >= 64 (0 = default)"},
 		{"service", "TCPListenerConfig", "Configure", "initialPayloadWaitTimeout", 1, regionPosInf, "initial payload wait timeout positive (0 = default)"},
 		{"service", "TCPListenerConfig", "Configure", "initialPayloadWaitBufferSize", 1, regionPosInf, "initial payload wait buffer size positive (0 = default)"},
 	}
 	for _, t := range tbl {
 		fc := p.Func(t.rel, t.recv, t.fn)
+		// "recv." stands for the receiver, whatever it is called
+		if ro := fc.RecvObj(); ro != nil && strings.HasPrefix(t.key, "recv.") {
+			t.key = ro.Name() + strings.TrimPrefix(t.key, "recv")
+		}
 		// the key must occur in the function (anchor)
 		if !strings.Contains(fullStr(fc.Body), t.key) {
 			r.Fail(rule, fmt.Sprintf("%s.(*%s).%s:range:%s", t.rel, t.recv, t.fn, t.key), p.posStr(fc.Body.Pos()), "the option "+t.key+" is not validated in this function any more")
@@ -433,8 +438,11 @@ func c18R3(p *Prog, r *Report) {
 		r.Check(ok, rule, "service."+d.name+":in-range", "service/udp.go", d.name+" = "+val, d.name+" = "+val+" is outside its documented range")
 	}
 	// MTU: constructors reached only with MTU >= minimumMTU
-	for _, site := range []struct{ recv, fn, key string }{{"ServerConfig", "UDPRelay", "sc.MTU"}, {"ClientConfig", "UDPClient", "cc.MTU"}} {
+	for _, site := range []struct{ recv, fn, key string }{{"ServerConfig", "UDPRelay", "recv.MTU"}, {"ClientConfig", "UDPClient", "recv.MTU"}} {
 		fc := p.Func("service", site.recv, site.fn)
+		if ro := fc.RecvObj(); ro != nil {
+			site.key = ro.Name() + strings.TrimPrefix(site.key, "recv")
+		}
 		targets := map[int]bool{}
 		var names []string
 		for _, cs := range fc.AllCalls() {
@@ -1264,7 +1272,22 @@ func c18R5(p *Prog, r *Report) {
 			if !ok || namedTypeName(fc.Info().TypeOf(cl)) != typ {
 				return true
 			}
-			out = append(out, strings.Join(strings.Fields(fullStr(cl)), ""))
+			// the server configuration the fields are read from is called differently in the
+			// two functions (receiver vs loop variable): print it as one name
+			str := strings.Join(strings.Fields(fullStr(cl)), "")
+			names := map[string]bool{}
+			ast.Inspect(cl, func(m ast.Node) bool {
+				if id, isId := m.(*ast.Ident); isId {
+					if o, isVar := fc.Info().Uses[id].(*types.Var); isVar && !o.IsField() && namedTypeName(o.Type()) == "ServerConfig" {
+						names[id.Name] = true
+					}
+				}
+				return true
+			})
+			for nm := range names {
+				str = regexp.MustCompile(`(^|[^A-Za-z0-9_.])`+regexp.QuoteMeta(nm)+`\.`).ReplaceAllString(str, "${1}<server>.")
+			}
+			out = append(out, str)
 			return false
 		})
 		// the value may come from a helper of the package that both sites share: the helper's
@@ -1294,10 +1317,14 @@ func c18R5(p *Prog, r *Report) {
 	for _, v := range si.G.V {
 		if as, ok := v.Node.(*ast.AssignStmt); ok && len(as.Lhs) == 1 {
 			l, rhs := exprStr(as.Lhs[0]), strings.Join(strings.Fields(exprStr(as.Rhs[0])), "")
-			if l == "sc.tcpEnabled" && rhs == "sc.EnableTCP||len(sc.TCPListeners)>0" {
+			rn := "sc"
+			if ro := si.RecvObj(); ro != nil {
+				rn = ro.Name()
+			}
+			if l == rn+".tcpEnabled" && rhs == rn+".EnableTCP||len("+rn+".TCPListeners)>0" {
 				okEn++
 			}
-			if l == "sc.udpEnabled" && rhs == "sc.EnableUDP||len(sc.UDPListeners)>0" {
+			if l == rn+".udpEnabled" && rhs == rn+".EnableUDP||len("+rn+".UDPListeners)>0" {
 				okEn++
 			}
 		}
